@@ -48,12 +48,13 @@ def txOnly : List Op → Bool
 
 /-- a relationship is deleted while its property map is not empty
     (`tombstone_edge` leaves the properties: a re-created relationship inherits them) -/
+def opDeletesRelWithProps (g : Graph) : TxOp → Bool
+  | .tombEdge s t d => g.eprops.any (·.1.1 == ⟨s, t, d⟩)
+  | _ => false
+
 def txDeletesRelWithProps : Graph → List TxOp → Bool
   | _, [] => false
-  | g, op :: ops =>
-    (match op with
-     | .tombEdge s t d => g.eprops.any (·.1.1 == ⟨s, t, d⟩)
-     | _ => false) || txDeletesRelWithProps (g.step op) ops
+  | g, op :: ops => opDeletesRelWithProps g op || txDeletesRelWithProps (g.step op) ops
 
 /-- a transaction removes a label and adds it back (commit applies all additions before all removals) -/
 def txLabelReAdd : List TxOp → Bool
@@ -61,12 +62,14 @@ def txLabelReAdd : List TxOp → Bool
   | .labelDel n l :: ops => ops.contains (.labelAdd n l) || txLabelReAdd ops
   | _ :: ops => txLabelReAdd ops
 
-/-- a transaction creates a relationship and deletes one of its end nodes
-    (the run's own node tombstones hide its own edges in one direction only) -/
-def txEdgeAndEndpointDelete (ops : List TxOp) : Bool :=
-  ops.any (fun o => match o with
-    | .edge s _ d => ops.contains (.tombNode s) || ops.contains (.tombNode d)
-    | _ => false)
+/-- a transaction creates a relationship and later deletes one of its end nodes
+    (the run's own node tombstones hide its own edges in one direction only; the other order —
+    an edge to a node deleted earlier in the transaction — is not well-formed) -/
+def txEdgeAndEndpointDelete : List TxOp → Bool
+  | [] => false
+  | .edge s _ d :: ops =>
+    ops.contains (.tombNode s) || ops.contains (.tombNode d) || txEdgeAndEndpointDelete ops
+  | _ :: ops => txEdgeAndEndpointDelete ops
 
 /-- external id 0 is used (`resolve_external` reads 0 as "none"; not indexed on reload) -/
 def txExtZero (ops : List TxOp) : Bool :=
